@@ -22,6 +22,21 @@ def main():
                 subprocess.run(["patch", "-R", "-p1", "-s"], input=diff, cwd=dst, check=True)
             elif op == "--apply":
                 subprocess.run(["patch", "-p1", "-s"], input=open(arg, "rb").read(), cwd=dst, check=True)
+            elif op == "--mutant":
+                import json
+                reg = json.load(open("/verif/mutants.json"))
+                m = [x for x in reg["mutants"] if x["id"] == arg][0]
+                for r in m.get("revert", []):
+                    diff = subprocess.check_output(["git", "-C", "/repo", "show", r])
+                    subprocess.run(["patch", "-R", "-p1", "-s"], input=diff, cwd=dst, check=True)
+                for a in m.get("apply", []):
+                    subprocess.run(["patch", "-p1", "-s"], input=open(os.path.join("/verif", a), "rb").read(), cwd=dst, check=True)
+                for e in m.get("edits", []):
+                    fp = os.path.join(dst, e["file"])
+                    src = open(fp).read()
+                    if src.count(e["old"]) != 1:
+                        raise SystemExit(f"mutant {arg}: pattern occurs {src.count(e['old'])} times in {e['file']}")
+                    open(fp, "w").write(src.replace(e["old"], e["new"]))
             else:
                 raise SystemExit(f"unknown op {op}")
         env = dict(os.environ, VERIF_REPO=dst)
